@@ -297,7 +297,7 @@ def run(ctx):
     ctx.cov['rule'] = ('affine correspondence: random integer-coordinate line/triangle/tetrahedron meshes (Delaunay, random renumbering => '
                        'both orientations) x tind None / subset / construction-time subset x shared / per-cell points x find None / subset; '
                        'oracle: every mesh class incl. curved second-order; non-trivial = dim >= 2; distinct by content')
-    ctx.extra['exhaustive'] = ('finite enumerations done inside Coq: every ordering of the vertices of every local facet '
+    ctx.extra['exhaustive_note'] = ('finite enumerations done inside Coq: every ordering of the vertices of every local facet '
                                '(RefLine 2, RefTri 3 facets x 2 orders, RefTet 4 facets x 6 orders), every local slot for the normals, '
                                'dimensions 1-3; each instance is a ring/field identity valid for ALL coordinates')
     rng = np_seed(ctx)
